@@ -14,6 +14,7 @@ final response arrives (status 200, the chain's own body) carrying the
 redirect responses in order; after an https hop no request ever reaches a
 plain-http server (refusing by raising or by delivering the 3xx is accepted).
 """
+from vf import net
 import os
 import ssl
 import time
@@ -98,16 +99,20 @@ class World(object):
             srv = hg.loop_server(self.store, timeout=60.0)
             scheme = "http"
         else:
-            srv = ServerTls(ha=("127.0.0.1", 0), store=self.store, timeout=60.0, certify=ssl.CERT_NONE,
-                            keypath=os.path.join(CERTS, "server_key.pem"), certpath=os.path.join(CERTS, "server_cert.pem"))
-            if not srv.reopen():
+            # the test certificates are for localhost, so this one stays on 127.0.0.1, on a port below the ephemeral range
+            for port in net.listen_ports():
+                srv = ServerTls(ha=("127.0.0.1", port), store=self.store, timeout=60.0, certify=ssl.CERT_NONE,
+                                keypath=os.path.join(CERTS, "server_key.pem"), certpath=os.path.join(CERTS, "server_cert.pem"))
+                if srv.reopen():
+                    break
+            else:
                 raise RuntimeError("cannot open TLS loopback server")
             srv.eha = srv.ha
             srv.ss.setsockopt(socket.IPPROTO_TCP, socket.TCP_NODELAY, 1)
             scheme = "https"
         valet = serving.Valet(servant=srv, app=self.app_for(name), store=self.store)
         self.servers[name] = {"valet": valet, "port": srv.ha[1], "scheme": scheme,
-                              "host": "localhost" if scheme == "https" else "127.0.0.1"}
+                              "host": "localhost" if scheme == "https" else net.host()}
         return self.servers[name]
 
     def trust_test_ca(self):
